@@ -9,11 +9,16 @@
 (*   FailDelete  prepareErr = err; Lock; delete(Stmts, query); Unlock;     *)
 (*               close(prepared)                                           *)
 (*   Wait        <-entry.prepared                                          *)
-(*   Use         stmt.ExecContext / Tx.StmtContext(stmt).ExecContext       *)
+(*   UseBegin    stmt.ExecContext / Tx.StmtContext(stmt).ExecContext: the  *)
+(*               call reaches the driver (or finds the statement closed)   *)
+(*   UseEnd      the driver answers: ok | ErrBadConn                       *)
 (*   Evict       ErrBadConn: Lock; go stmt.Close(); delete(Stmts, query)   *)
 (*   Reset/Close Lock; spawn one closer per entry; swap / nil the map      *)
-(*   Closer(e)   <-e.prepared; e.Stmt.Close()   (spawned by Reset/Close)   *)
-(*   EClose(e)   the "go stmt.Close()" an eviction spawns                  *)
+(*   Closer(e)   <-e.prepared; e.Stmt.Close() is called (spawned by Reset) *)
+(*   EStart(e)   the "go stmt.Close()" an eviction spawns gets going       *)
+(*   CloseDone(e) Stmt.Close acquires the statement's close lock: it waits *)
+(*               for the calls in flight, and while it waits new calls on  *)
+(*               the statement queue behind it (sync.RWMutex)              *)
 (* Each goroutine runs one operation with a fixed plan [q, tx, prep, use]. *)
 (* FixB = TRUE models the repaired deletion (only one's own entry).        *)
 (***************************************************************************)
@@ -25,9 +30,9 @@ CONSTANTS G,          \* goroutines, e.g. {1, 2, 3}
           Admins,     \* subset of {"none", "reset", "close"}
           FixB        \* deletion by identity (fix of F7b)
 
-VARIABLES plan, admin, stmts, closedMap, ent, nent, pc, held, res, closers, eclosers, live, hist
-vars == <<plan, admin, stmts, closedMap, ent, nent, pc, held, res, closers, eclosers, live, hist>>
-view == <<plan, admin, stmts, closedMap, ent, nent, pc, held, res, closers, eclosers, live>>
+VARIABLES plan, admin, stmts, closedMap, ent, nent, pc, held, res, closers, eclosers, pend, live, hist
+vars == <<plan, admin, stmts, closedMap, ent, nent, pc, held, res, closers, eclosers, pend, live, hist>>
+view == <<plan, admin, stmts, closedMap, ent, nent, pc, held, res, closers, eclosers, pend, live>>
 
 NoEnt == 0
 Init ==
@@ -36,7 +41,7 @@ Init ==
   /\ stmts = [q \in Qs |-> NoEnt] /\ closedMap = FALSE
   /\ ent = <<>> /\ nent = 0
   /\ pc = [g \in G |-> "start"] /\ held = [g \in G |-> NoEnt] /\ res = [g \in G |-> "none"]
-  /\ closers = {} /\ eclosers = {} /\ live = [q \in Qs |-> 0] /\ hist = <<>>
+  /\ closers = {} /\ eclosers = {} /\ pend = {} /\ live = [q \in Qs |-> 0] /\ hist = <<>>
 
 Usable(e, g) == e # NoEnt /\ (~ent[e].tx \/ plan[g].tx)
 Log(g, a) == hist' = Append(hist, [g |-> g, a |-> a])
@@ -48,7 +53,7 @@ Lookup(g) ==
      THEN held' = [held EXCEPT ![g] = stmts[Q(g)]] /\ pc' = [pc EXCEPT ![g] = "hit"]
      ELSE held' = held /\ pc' = [pc EXCEPT ![g] = "miss"]
   /\ Log(g, "lookup")
-  /\ UNCHANGED <<plan, admin, stmts, closedMap, ent, nent, res, closers, eclosers, live>>
+  /\ UNCHANGED <<plan, admin, stmts, closedMap, ent, nent, res, closers, eclosers, pend, live>>
 
 LockCheck(g) ==
   /\ pc[g] = "miss"
@@ -64,7 +69,7 @@ LockCheck(g) ==
           /\ stmts' = [stmts EXCEPT ![Q(g)] = nent + 1]          \* replaces a transaction-only entry
           /\ held' = [held EXCEPT ![g] = nent + 1] /\ pc' = [pc EXCEPT ![g] = "inserted"]
           /\ res' = res
-  /\ UNCHANGED <<plan, admin, closedMap, closers, eclosers, live>>
+  /\ UNCHANGED <<plan, admin, closedMap, closers, eclosers, pend, live>>
 
 DriverPrep(g) ==
   /\ pc[g] = "inserted"
@@ -75,14 +80,14 @@ DriverPrep(g) ==
           /\ live' = IF plan[g].tx \/ closedMap \/ stmts[Q(g)] # held[g] THEN live ELSE [live EXCEPT ![Q(g)] = @ + 1]
           /\ pc' = [pc EXCEPT ![g] = "prepared"]
      ELSE /\ pc' = [pc EXCEPT ![g] = "prepfail"] /\ UNCHANGED <<ent, live>>
-  /\ UNCHANGED <<plan, admin, stmts, closedMap, nent, held, res, closers, eclosers>>
+  /\ UNCHANGED <<plan, admin, stmts, closedMap, nent, held, res, closers, eclosers, pend>>
 
 Publish(g) ==
   /\ pc[g] = "prepared"
   /\ Log(g, "publish")
   /\ ent' = [ent EXCEPT ![held[g]].hasStmt = TRUE, ![held[g]].prepared = TRUE]
   /\ pc' = [pc EXCEPT ![g] = "use"]
-  /\ UNCHANGED <<plan, admin, stmts, closedMap, nent, held, res, closers, eclosers, live>>
+  /\ UNCHANGED <<plan, admin, stmts, closedMap, nent, held, res, closers, eclosers, pend, live>>
 
 FailDelete(g) ==
   /\ pc[g] = "prepfail"
@@ -93,7 +98,7 @@ FailDelete(g) ==
      ELSE /\ stmts' = [stmts EXCEPT ![Q(g)] = NoEnt]               \* without FixB: whatever entry is there now
           /\ live' = [live EXCEPT ![Q(g)] = 0]
   /\ res' = [res EXCEPT ![g] = "prep_err"] /\ pc' = [pc EXCEPT ![g] = "done"]
-  /\ UNCHANGED <<plan, admin, closedMap, nent, held, closers, eclosers>>
+  /\ UNCHANGED <<plan, admin, closedMap, nent, held, closers, eclosers, pend>>
 
 Wait(g) ==
   /\ pc[g] = "hit" /\ ent[held[g]].prepared
@@ -101,19 +106,30 @@ Wait(g) ==
   /\ IF ent[held[g]].err
      THEN res' = [res EXCEPT ![g] = "prep_err"] /\ pc' = [pc EXCEPT ![g] = "done"]
      ELSE res' = res /\ pc' = [pc EXCEPT ![g] = "use"]
-  /\ UNCHANGED <<plan, admin, stmts, closedMap, ent, nent, held, closers, eclosers, live>>
+  /\ UNCHANGED <<plan, admin, stmts, closedMap, ent, nent, held, closers, eclosers, pend, live>>
 
-Use(g) ==
+UseBegin(g) ==
   /\ pc[g] = "use"
   /\ Log(g, "use")
   \* database/sql reports a closed *sql.Stmt before the driver is reached; inside a transaction
   \* Tx.StmtContext re-prepares a closed or foreign statement on the transaction's connection
+  /\ (plan[g].tx \/ held[g] \notin pend)                 \* a direct call queues behind a pending Close
   /\ IF ~plan[g].tx /\ ~ent[held[g]].open
      THEN pc' = [pc EXCEPT ![g] = "done"] /\ res' = [res EXCEPT ![g] = "stmt_closed"]
-     ELSE IF plan[g].use = "badconn"
+     ELSE pc' = [pc EXCEPT ![g] = "inflight"] /\ res' = res
+  /\ UNCHANGED <<plan, admin, stmts, closedMap, ent, nent, held, closers, eclosers, pend, live>>
+
+\* the driver call is in flight between UseBegin and UseEnd; a direct (non-transaction) user holds
+\* the *sql.Stmt's close lock for that time
+UseEnd(g) ==
+  /\ pc[g] = "inflight"
+  /\ Log(g, "useend")
+  /\ IF plan[g].use = "badconn"
      THEN pc' = [pc EXCEPT ![g] = "badconn"] /\ res' = res
      ELSE pc' = [pc EXCEPT ![g] = "done"] /\ res' = [res EXCEPT ![g] = "ok"]
-  /\ UNCHANGED <<plan, admin, stmts, closedMap, ent, nent, held, closers, eclosers, live>>
+  /\ UNCHANGED <<plan, admin, stmts, closedMap, ent, nent, held, closers, eclosers, pend, live>>
+
+InUse(e) == \E g \in DOMAIN pc : pc[g] = "inflight" /\ held[g] = e /\ ~plan[g].tx
 
 Evict(g) ==
   /\ pc[g] = "badconn"
@@ -123,7 +139,7 @@ Evict(g) ==
      THEN UNCHANGED <<stmts, live>>
      ELSE stmts' = [stmts EXCEPT ![Q(g)] = NoEnt] /\ live' = [live EXCEPT ![Q(g)] = 0]
   /\ res' = [res EXCEPT ![g] = "badconn"] /\ pc' = [pc EXCEPT ![g] = "done"]
-  /\ UNCHANGED <<plan, admin, closedMap, ent, nent, held>>
+  /\ UNCHANGED <<plan, admin, closedMap, ent, nent, held, pend>>
 
 Admin ==
   /\ admin \in {"reset", "close"}
@@ -132,33 +148,42 @@ Admin ==
   /\ stmts' = [q \in Qs |-> NoEnt] /\ live' = [q \in Qs |-> 0]
   /\ closedMap' = (admin = "close")
   /\ admin' = "done"
-  /\ UNCHANGED <<plan, ent, nent, pc, held, res, eclosers>>
+  /\ UNCHANGED <<plan, ent, nent, pc, held, res, eclosers, pend>>
 
 Closer(e) ==
   /\ e \in closers /\ ent[e].prepared
   /\ hist' = Append(hist, [g |-> 0 - e, a |-> "closer"])
-  /\ ent' = [ent EXCEPT ![e].open = FALSE]
-  /\ closers' = closers \ {e}
-  /\ UNCHANGED <<plan, admin, stmts, closedMap, nent, pc, held, res, live, eclosers>>
+  /\ closers' = closers \ {e} /\ pend' = pend \cup {e}
+  /\ UNCHANGED <<plan, admin, stmts, closedMap, ent, nent, pc, held, res, live, eclosers>>
 
-EClose(e) ==
+EStart(e) ==
   /\ e \in eclosers
-  /\ hist' = Append(hist, [g |-> 0 - e, a |-> "eclose"])
+  /\ hist' = Append(hist, [g |-> 0 - e, a |-> "estart"])
+  /\ eclosers' = eclosers \ {e} /\ pend' = pend \cup {e}
+  /\ UNCHANGED <<plan, admin, stmts, closedMap, ent, nent, pc, held, res, live, closers>>
+
+CloseDone(e) ==
+  /\ e \in pend /\ ~InUse(e)
+  /\ hist' = Append(hist, [g |-> 0 - e, a |-> "closed"])
   /\ ent' = [ent EXCEPT ![e].open = FALSE]
-  /\ eclosers' = eclosers \ {e}
-  /\ UNCHANGED <<plan, admin, stmts, closedMap, nent, pc, held, res, live, closers>>
+  /\ pend' = pend \ {e}
+  /\ UNCHANGED <<plan, admin, stmts, closedMap, nent, pc, held, res, live, closers, eclosers>>
 
 Procs == DOMAIN pc      \* = G; the trace specification replays schedules of differing goroutine counts
 AllDone == \A g \in Procs : pc[g] = "done"
-Quiescent == AllDone /\ closers = {} /\ eclosers = {} /\ admin \in {"none", "done"}
-Next == \/ \E g \in G : Lookup(g) \/ LockCheck(g) \/ DriverPrep(g) \/ Publish(g) \/ FailDelete(g) \/ Wait(g) \/ Use(g) \/ Evict(g)
+Quiescent == AllDone /\ closers = {} /\ eclosers = {} /\ pend = {} /\ admin \in {"none", "done"}
+Next == \/ \E g \in G : Lookup(g) \/ LockCheck(g) \/ DriverPrep(g) \/ Publish(g) \/ FailDelete(g) \/ Wait(g) \/ UseBegin(g) \/ UseEnd(g) \/ Evict(g)
         \/ Admin
         \/ \E e \in closers : Closer(e)
-        \/ \E e \in eclosers : EClose(e)
+        \/ \E e \in eclosers : EStart(e)
+        \/ \E e \in pend : CloseDone(e)
         \/ (Quiescent /\ UNCHANGED vars)
-\* behaviours for replay: the eviction's "go stmt.Close()" has no instrumentation point, so the
-\* replayed schedules let it run at once (the exhaustive model keeps it asynchronous)
-NextReplay == IF eclosers # {} THEN \E e \in eclosers : EClose(e) ELSE Next
+\* behaviours for replay: the eviction's "go stmt.Close()" has no instrumentation point and a
+\* Close proceeds as soon as it can, so the replayed schedules let both happen at once (the
+\* exhaustive model keeps them asynchronous)
+NextReplay == IF eclosers # {} THEN \E e \in eclosers : EStart(e)
+              ELSE IF \E e \in pend : ~InUse(e) THEN \E e \in {x \in pend : ~InUse(x)} : CloseDone(e)
+              ELSE Next
 Spec == Init /\ [][Next]_vars /\ WF_vars(Next)
 
 (***************************************************************************)
